@@ -64,6 +64,16 @@ var commonAssume = []string{
 }
 
 var props = map[string]*propCfg{
+	"C05": {
+		Title:    "race-free, atomic render, terminates, final render complete",
+		Quick:    tierCfg{Runs: 4000, Chunk: 125, RaceRuns: 480, DetRuns: 48, ShrinkSec: 60},
+		Thorough: tierCfg{Runs: 300000, Chunk: 1500, RaceRuns: 24000, DetRuns: 256, ShrinkSec: 240},
+		Rule: "one evaluation = one simulated run of real batchers + extractor + helpers.RunAggregationLoop around a real MatchCounter with the render callback of cmd/histo.go (real HistoWriter, FWriteExtractorSummary, Batcher.StatusString), under a tape-drawn schedule, select ties, reader/sample/render/yield latencies in fake time (the 100ms ticker lands before, between and after batches); leg B re-runs the same worlds free-running under the race detector; " +
+			"distinct_nontrivial = distinct schedule hashes among leg-A runs that read >= 1 line and had >= 2 goroutines runnable at >= 1 decision",
+		Real:  []string{"cmd/helpers.RunAggregationLoop", "pkg/extractor/batchers", "pkg/extractor", "pkg/aggregation.MatchCounter", "pkg/multiterm/termrenderers.HistoWriter", "pkg/multiterm.VirtualTerm", "pkg/logger", "regular files of the kernel"},
+		Stubs: []string{"goroutine scheduling (tape; leg B: the real Go scheduler under -race)", "clock (synctest fake clock)", "stdin (scripted reader)", "signal.Notify (simrt.SignalNotify)", "read chunking/latency/error (fs seam)"},
+		Assume: []string{"leg B (data races): the interleaving is the real one and is not controlled by the tape; a report is sound (a real race in the real code) but a clean leg B is only as strong as the race detector's happens-before analysis over the executed accesses"},
+	},
 	"C04": {
 		Title:    "line splitting is exact and returned buffers are never overwritten",
 		Quick:    tierCfg{Runs: 25000, Chunk: 800, DetRuns: 48, ShrinkSec: 30},
@@ -256,6 +266,8 @@ type runResult struct {
 	Nontrivial bool             `json:"nontrivial"`
 	WallMicros int64            `json:"wall_us"`
 	DetHash    string           `json:"det"`
+	RaceFlag   bool             `json:"race_flag"`
+	RaceLogOff int64            `json:"race_log_off"`
 	Cases      int              `json:"cases"`
 	CaseHashes []string         `json:"case_hashes"`
 }
@@ -295,6 +307,10 @@ func runJob(b *build, prop string, base uint64, tier string, j job, timeout time
 	select {
 	case err := <-done:
 		if err != nil {
+			if j.Mode == 2 && strings.Contains(outb.String(), "race detected during execution of test") {
+				// the race detector makes the test binary exit 1; the reports are in the log_path files
+				return nil
+			}
 			return fmt.Errorf("worker for indices [%d,%d) failed: %v\n%s", j.From, j.To, err, tail(outb.String(), 6000))
 		}
 		return nil
@@ -389,6 +405,9 @@ func main() {
 }
 
 func cmdReplay(path string) int {
+	if abs, err := filepath.Abs(path); err == nil {
+		path = abs
+	}
 	b, err := os.ReadFile(path)
 	if err != nil {
 		die(2, "%v", err)
@@ -429,6 +448,13 @@ func replayOnce(b *build, prop, path, class string, mode int) (bool, string) {
 		last = string(out)
 		if strings.Contains(last, "REPLAY-VIOLATION class="+class+"\n") {
 			return true, last
+		}
+		if mode == 2 {
+			for _, v := range raceViolations(prop, last) {
+				if v.Class == class {
+					return true, "REPLAY-VIOLATION class=" + class + " (attempt " + strconv.Itoa(i+1) + ")\n" + v.Msg + "\n"
+				}
+			}
 		}
 	}
 	return false, last
@@ -571,16 +597,32 @@ func cmdRun(prop string, args []string) int {
 		}
 		switch {
 		case j.Mode == 2:
-			race = append(race, rs...)
-			// race reports
-			if rb, err := filepath.Glob(j.Out + ".race*"); err == nil {
-				for _, f := range rb {
-					data, _ := os.ReadFile(f)
-					if len(data) > 0 {
-						race[len(race)-1].Viol = append(race[len(race)-1].Viol, raceViolations(prop, string(data))...)
-					}
+			// race reports of this worker process, attributed to runs by log offset
+			flagged, nrep := 0, 0
+			var data []byte
+			if rb, err := filepath.Glob(j.Out + ".race*"); err == nil && len(rb) > 0 {
+				data, _ = os.ReadFile(rb[0])
+			}
+			var prev int64
+			for i := range rs {
+				if rs[i].RaceFlag {
+					flagged++
+				}
+				off := rs[i].RaceLogOff
+				if i == len(rs)-1 || off > int64(len(data)) {
+					off = int64(len(data))
+				}
+				if off > prev {
+					vs := raceViolations(prop, string(data[prev:off]))
+					nrep += len(vs)
+					rs[i].Viol = append(rs[i].Viol, vs...)
+					prev = off
 				}
 			}
+			if flagged > 0 && nrep == 0 {
+				rs[0].Viol = append(rs[0].Viol, violation{Class: "HARNESS-race-report-missing", Msg: "the race detector failed a run but no report was found in " + j.Out + ".race*"})
+			}
+			race = append(race, rs...)
 		case j.Det:
 			det = append(det, rs...)
 		default:
@@ -746,32 +788,59 @@ func grepLines(s, sub string) string {
 	return strings.Join(out, "\n") + "\n"
 }
 
-var raceLoc = regexp.MustCompile(`(?m)^\s+(\S+\(\S*\)|\S+)\n\s+(\S+\.go):(\d+)`)
+var raceFrame = regexp.MustCompile(`(?m)^  (\S+)\(\)\n      (\S+):(\d+)`)
 
-// raceViolations turns race-detector reports into violations keyed by the pair of top source locations.
+// raceTop returns the first frame of an access stack that lies in rare's own code (skipping
+// sync/atomic, runtime and simrt wrappers), as "function (file:line of the instrumented copy)".
+func raceTop(part string) (fn, loc string) {
+	all := raceFrame.FindAllStringSubmatch(part, -1)
+	// prefer the innermost frame in rare's own packages; fall back to the innermost non-runtime frame
+	for _, m := range all {
+		if strings.HasPrefix(m[1], "rare/") || strings.HasPrefix(m[1], "rare.") {
+			file := m[2]
+			if i := strings.Index(file, "/rare/"); i >= 0 {
+				file = file[i+len("/rare/"):]
+			}
+			return m[1], file + ":" + m[3]
+		}
+	}
+	for _, m := range all {
+		f := m[1]
+		if strings.HasPrefix(f, "sync/atomic.") || strings.HasPrefix(f, "runtime.") || strings.HasPrefix(f, "simrt.") || strings.HasPrefix(f, "sync.") || strings.HasPrefix(f, "internal/") {
+			continue
+		}
+		file := m[2]
+		if i := strings.Index(file, "/rare/"); i >= 0 {
+			file = file[i+len("/rare/"):]
+		}
+		return f, file + ":" + m[3]
+	}
+	return "?", "?"
+}
+
+// raceViolations turns race-detector reports into violations, one class per pair of functions.
 func raceViolations(prop, report string) []violation {
 	var out []violation
 	for _, blk := range strings.Split(report, "==================") {
 		if !strings.Contains(blk, "DATA RACE") {
 			continue
 		}
-		// top frame of each of the two accesses
-		var locs []string
-		for _, part := range regexp.MustCompile(`(?m)^(Read|Write|Previous read|Previous write|Atomic|Previous atomic)[^\n]*\n`).Split(blk, -1)[1:] {
-			m := raceLoc.FindStringSubmatch(part)
-			if m != nil {
-				f := m[2]
-				if i := strings.Index(f, "/rare/"); i >= 0 {
-					f = f[i+len("/rare/"):]
-				}
-				locs = append(locs, f+":"+m[3])
+		parts := regexp.MustCompile(`(?m)^(Read|Write|Previous read|Previous write|Atomic read|Atomic write|Previous atomic read|Previous atomic write)[^\n]*\n`).Split(blk, -1)
+		var fns, locs []string
+		for _, part := range parts[1:] {
+			// an access stack ends at the first blank line
+			if k := strings.Index(part, "\n\n"); k >= 0 {
+				part = part[:k]
 			}
-			if len(locs) == 2 {
+			f, l := raceTop(part)
+			fns = append(fns, f)
+			locs = append(locs, l)
+			if len(fns) == 2 {
 				break
 			}
 		}
-		sort.Strings(locs)
-		out = append(out, violation{Class: prop + "/data-race", Msg: "race between " + strings.Join(locs, " and ") + "\n" + clip(blk, 3000)})
+		sort.Strings(fns)
+		out = append(out, violation{Class: prop + "/data-race:" + strings.Join(fns, "~"), Msg: "data race between " + strings.Join(fns, " and ") + " (instrumented copy: " + strings.Join(locs, ", ") + ")\n" + clip(blk, 3000)})
 	}
 	return out
 }
